@@ -103,3 +103,99 @@ class IdSeam:
         if rc <= self.baseline and val not in self.dead_ids:
             self.dead_ids.append(val)
         return val
+
+
+class ObjectIdSeam:
+    """Replacement for ``id`` that also serves long-lived objects.  A live object keeps the id it was given; a new
+    object receives, at the chooser's will, a fresh id (default) or the id of any object that was passed before and is
+    dead now (weak reference cleared after a gc pass; unowned temporaries that cannot be weakly referenced are dead as
+    soon as the call returns).  Live objects are never aliased."""
+
+    def __init__(self, chooser: Chooser):
+        import weakref
+
+        self._weakref = weakref
+        self.ch = chooser
+        self.fresh = 10**9
+        self.live = {}  # real id -> (weakref or None, value)
+        self.dead_vals: List[int] = []
+        self.calls = 0
+        self.aliased = 0
+
+    def _sweep(self):
+        import gc
+
+        gc.collect()  # callers freeze the pre-existing heap (gc.freeze) so that this only scans recent objects
+        for rid in list(self.live):
+            wr, val = self.live[rid]
+            if wr is not None and wr() is None:
+                del self.live[rid]
+                if val not in self.dead_vals:
+                    self.dead_vals.append(val)
+
+    def __call__(self, obj):
+        self.calls += 1
+        rid = _REAL_ID(obj)
+        ent = self.live.get(rid)
+        if ent is not None and ent[0] is not None and ent[0]() is obj:
+            return ent[1]
+        self._sweep()
+        n = 1 + len(self.dead_vals)
+        c = self.ch.choose(n)
+        if c == 0:
+            self.fresh += 8
+            val = self.fresh
+        else:
+            val = self.dead_vals.pop(c - 1)
+            self.aliased += 1
+        try:
+            wr = self._weakref.ref(obj)
+            self.live[rid] = (wr, val)
+        except TypeError:
+            # not weak-referenceable (tuple, int, ...): treat as a temporary that dies at once
+            if val not in self.dead_vals:
+                self.dead_vals.append(val)
+        return val
+
+
+_REAL_ID = id
+
+
+class VirtualParallel:
+    """Stand-in for ``joblib.Parallel``: runs the tasks in submission order in this process.  With n_jobs == 1 the
+    callables run directly (as joblib does).  Otherwise the task list is cut into contiguous batches (cut points are
+    chooser decisions, default: one batch); each batch is serialised with cloudpickle and run on the deserialised copy,
+    so state is shared inside a batch and not across batches or with the parent; results come back through pickle, in
+    submission order, as joblib guarantees."""
+
+    chooser: Chooser = None
+    log = None
+
+    def __init__(self, n_jobs=1, **kw):
+        self.n_jobs = n_jobs
+
+    def __call__(self, iterable):
+        import pickle
+        import cloudpickle
+
+        tasks = list(iterable)
+        if self.n_jobs in (1, None) or len(tasks) == 0:
+            return [f(*a, **k) for f, a, k in tasks]
+        ch = VirtualParallel.chooser
+        cuts = [ch.choose(2) if ch is not None else 0 for _ in range(len(tasks) - 1)]
+        batches, cur = [], [tasks[0]]
+        for t, c in zip(tasks[1:], cuts):
+            if c:
+                batches.append(cur)
+                cur = [t]
+            else:
+                cur.append(t)
+        batches.append(cur)
+        if VirtualParallel.log is not None:
+            VirtualParallel.log.append([len(b) for b in batches])
+        out = []
+        for b in batches:
+            copy = cloudpickle.loads(cloudpickle.dumps(b))
+            res = [f(*a, **k) for f, a, k in copy]
+            out.extend(pickle.loads(pickle.dumps(res)))
+        return out
